@@ -25,6 +25,8 @@ def main():
         if a == "--checks": checks = sys.argv[i+1].split(",")
         if a == "--tier": tier = sys.argv[i+1]
     src = f"/tmp/seed-out/{prop}"
+    if which in ("C", "D", "E", "F"):
+        src = f"/tmp/seed2-out/{prop}"
     dst = f"/verif/seeded/{prop}-{which}"
     if not os.path.exists(f"{src}/{which}.diff") and os.path.exists(f"{dst}/patch.diff"):
         src = None
